@@ -35,6 +35,9 @@ CONFIGS = {
     "gzipped-outputs": dict(n_chroms=2, extra=[], gz=True),
     # the killed run is a --force run started in a folder that still holds a COMPLETED earlier run (different reads, --keep_tmp)
     "force-over-previous-run": dict(n_chroms=2, extra=[], dirty=True),
+    # the killed run starts from the assignments saved by an earlier --keep_tmp run (--read_assignments <prefix>); every run has its own
+    # copy of the saved files, because stage locks are written next to them
+    "from-saved-assignments": dict(n_chroms=2, extra=[], saved=True),
 }
 
 
@@ -56,10 +59,14 @@ def make_inputs(cfg, d, seed):
     return extra
 
 
-def args_for(cfg, d, out, extra):
+def args_for(cfg, d, out, extra, saves=None):
     a = pipeline.std_args(d, out, threads=1, annotated=cfg.get("annotated", True), extra=extra)
     if cfg.get("gz"):
         a.remove("--no_gzip")
+    if saves:
+        i = a.index("--bam")
+        del a[i:i + 2]
+        a += ["--read_assignments", os.path.join(saves, pipeline.PREFIX + ".save")]
     return a
 
 
@@ -70,7 +77,7 @@ def run(chk, scratch):
                 "directory of a -t 1 run, after .params was written; the run is killed (os._exit) immediately before it and continued with --resume (every second point with --threads 3); "
                 "quick: every distinct call site (function, operation, file kind) of 2 configurations once + random fill; thorough: every crash "
                 "point of every configuration + multi-process kills. non-trivial = distinct call sites crashed at")
-    conf_names = list(CONFIGS) if thorough else ["multi-chrom-groups-exons", "annotation-free", "force-over-previous-run"]
+    conf_names = list(CONFIGS) if thorough else ["multi-chrom-groups-exons", "annotation-free", "force-over-previous-run", "from-saved-assignments"]
     total_points = 0
     executed = 0
     sites_seen = set()
@@ -104,7 +111,14 @@ def run(chk, scratch):
             if rr["rc"] != 0:
                 raise runner.Inconclusive("reference run failed")
             shutil.copytree(stale, clean)
-        r = runner.run_isoquant(args_for(cfg, d, clean, extra), os.path.join(d, "home"), mon=["crash"],
+        saves_src = None
+        if cfg.get("saved"):
+            r0 = runner.run_isoquant(args_for(cfg, d, os.path.join(d, "saving"), extra + ["--keep_tmp"]), os.path.join(d, "home"))
+            if r0["rc"] != 0:
+                raise runner.Inconclusive("could not prepare saved assignments: " + pipeline.fail_text(r0))
+            saves_src = os.path.join(d, "saving", pipeline.PREFIX, "aux")
+            shutil.copytree(saves_src, os.path.join(d, "saves_clean"))
+        r = runner.run_isoquant(args_for(cfg, d, clean, extra, saves=os.path.join(d, "saves_clean") if saves_src else None), os.path.join(d, "home"), mon=["crash"],
                                 cfg={"crash_root": clean}, events=ev)
         if cfg.get("dirty") and r["rc"] == 0:
             # the tree every resumed run is compared with is the clean-folder run
@@ -149,7 +163,11 @@ def run(chk, scratch):
             shutil.copytree(os.path.join(d, "home"), home)     # same annotation cache state as the clean run had at the end
             if stale:
                 shutil.copytree(stale, out)
-            r1 = runner.run_isoquant(args_for(cfg, d, out, extra), home, mon=["crash"],
+            sv = None
+            if saves_src:
+                sv = os.path.join(d, "saves%d" % n)
+                shutil.copytree(saves_src, sv)
+            r1 = runner.run_isoquant(args_for(cfg, d, out, extra, saves=sv), home, mon=["crash"],
                                      cfg={"crash_root": out, "crash_at": n}, events=os.path.join(d, "ev%d" % n))
             r2 = None
             if r1["rc"] == 137:
@@ -187,6 +205,7 @@ def run(chk, scratch):
                                   "%s: killed before mutation %d (%s); --resume exits 0 but %s %s" % (cname, n, site, rel, why), wit)
             chk.sample({"config": cname, "crash_point": n, "site": site, "resume_exit": r2["rc"] if r2 else None}, limit=5)
             shutil.rmtree(out, ignore_errors=True)
+            shutil.rmtree(os.path.join(d, "saves%d" % n), ignore_errors=True)
         if chk.violations and not getattr(chk, "witness_files", None):
             chk.witness_files = [os.path.join(d, f) for f in ("g.fa", "a.gtf", "r.bam", "r.bam.bai", "groups.tsv") if os.path.exists(os.path.join(d, f))]
     # multi-process kills: -t 4, the whole process group is SIGKILLed when some worker performs its k-th mutation
